@@ -9,7 +9,7 @@ DEFAULT_PROFILE = dict(
     p_opt=0.1, p_split=0.15, p_default=0.35, p_subdir=0.2, p_twodot=0.3,
     steps=(6, 18),
     ops=dict(build=8, edit_r=3, edit_i=2, touch=1, rm=2, doedit=1, doadd=1, dorm=1, sel=2, flag=2, watch=2,
-             force=1, repeat=2, uwrite=0, urm=0),
+             force=1, repeat=2, uwrite=0, urm=0, dorm_last=0.5),
     jmax=1, p_keep=0.0, p_multi=0.25,
 )
 
@@ -146,12 +146,17 @@ def gen_op(rnd, p, prof, last_build=None):
             return None
         return ('rm', n)
     if op == 'doedit':
-        return ('doedit', rnd.choice(sorted(p.dofiles)))
+        return ('doedit', rnd.choice(sorted(p.dofiles))) if p.dofiles else None
     if op == 'doadd':
         c = addable_dos(p)
         return ('doadd', rnd.choice(c)) if c else None
     if op == 'dorm':
         c = [d for d in sorted(p.dofiles) if removable_do(p, d)]
+        return ('dorm', rnd.choice(c)) if c else None
+    if op == 'dorm_last':
+        # remove a rule that is the only one for at least one target (the file it made stays and becomes a source; a target
+        # without file fails with "no rule")
+        c = [d for d in sorted(p.dofiles) if not removable_do(p, d)]
         return ('dorm', rnd.choice(c)) if c else None
     if op == 'sel':
         c = [n for n in tnames if p.targets[n].get('dyn')]
